@@ -83,8 +83,9 @@ Fixpoint types_walk (t : term) : list ty :=
       let rec := unions ty_eqb (map types_walk args) in
       match o with
       | OSymbol _ ty => [ty]
-      | OFunction _ (TFun ps r) => dedupe ty_eqb (r :: ps)
-      | OFunction _ _ => []
+      | OFunction _ (TFun ps r) => union ty_eqb (dedupe ty_eqb (r :: ps)) rec
+      | OFunction _ _ => rec
+      | OArrayValue it => union ty_eqb [it] rec
       | OForall vs | OExists vs => union ty_eqb (dedupe ty_eqb (map snd vs)) rec
       | OBoolC _ | OIntC _ | ORealC _ _ | OBVC _ _ | OStrC _ => const_type o
       | _ => rec
